@@ -10,6 +10,10 @@ import time
 VERIF = os.path.dirname(os.path.dirname(os.path.abspath(__file__)))
 
 SEMANTIC_ASSUMPTIONS = [
+    "a parameter the contract does not type and that has a constant default (an optional parameter added after the contract was "
+    "written) is fixed at its default while the function is verified: calls that pass it are outside the contracts",
+    "spec names of locals follow a pure renaming of the local (recorded first-binding order in baseline/locals.json vs. the current "
+    "source); this only selects the program variable a spec name denotes, every obligation is checked on the current code",
     "python ints are mathematical integers (as in Python)",
     "python floats are idealised: REAL = mathematical real (no rounding, overflow, underflow); "
     "XREAL = fin(r)|nan|+inf|-inf with IEEE comparison/arithmetic on the special values",
